@@ -27,9 +27,43 @@ def fp_to_real(e, memo):
         elif kind == z3.Z3_OP_FPA_MUL: r = fp_to_real(ch[1], memo) * fp_to_real(ch[2], memo)
         elif kind == z3.Z3_OP_FPA_DIV: r = fp_to_real(ch[1], memo) / fp_to_real(ch[2], memo)
         elif kind == z3.Z3_OP_FPA_NEG: r = -fp_to_real(ch[0], memo)
+        elif kind == z3.Z3_OP_ITE: r = z3.If(bool_to_real(ch[0], memo), fp_to_real(ch[1], memo), fp_to_real(ch[2], memo))
+        elif kind == z3.Z3_OP_FPA_ABS:
+            a = fp_to_real(ch[0], memo); r = z3.If(a < 0, -a, a)
+        elif kind in (z3.Z3_OP_FPA_MIN, z3.Z3_OP_FPA_MAX):
+            a, b = fp_to_real(ch[0], memo), fp_to_real(ch[1], memo)
+            r = z3.If(a <= b, a, b) if kind == z3.Z3_OP_FPA_MIN else z3.If(a >= b, a, b)
         else: raise Unsupported('fp_to_real ' + str(e.decl()))
     memo[k] = (e, r)
     return r
+
+
+def bool_to_real(e, memo):
+    """real-arithmetic reading of a Boolean combination of FP comparisons (finite operands: x is in [0,1])"""
+    kind = e.decl().kind(); ch = e.children()
+    if kind == z3.Z3_OP_TRUE or kind == z3.Z3_OP_FALSE: return e
+    if kind == z3.Z3_OP_AND: return z3.And([bool_to_real(c, memo) for c in ch])
+    if kind == z3.Z3_OP_OR: return z3.Or([bool_to_real(c, memo) for c in ch])
+    if kind == z3.Z3_OP_NOT: return z3.Not(bool_to_real(ch[0], memo))
+    if kind == z3.Z3_OP_FPA_LT: return fp_to_real(ch[0], memo) < fp_to_real(ch[1], memo)
+    if kind == z3.Z3_OP_FPA_LE: return fp_to_real(ch[0], memo) <= fp_to_real(ch[1], memo)
+    if kind == z3.Z3_OP_FPA_GT: return fp_to_real(ch[0], memo) > fp_to_real(ch[1], memo)
+    if kind == z3.Z3_OP_FPA_GE: return fp_to_real(ch[0], memo) >= fp_to_real(ch[1], memo)
+    if kind in (z3.Z3_OP_FPA_EQ, z3.Z3_OP_EQ) and z3.is_fp(ch[0]): return fp_to_real(ch[0], memo) == fp_to_real(ch[1], memo)
+    if kind in (z3.Z3_OP_FPA_IS_NAN, z3.Z3_OP_FPA_IS_INF): return z3.BoolVal(False)
+    if kind == z3.Z3_OP_FPA_IS_ZERO: return fp_to_real(ch[0], memo) == 0
+    if kind == z3.Z3_OP_FPA_IS_NEGATIVE: return fp_to_real(ch[0], memo) < 0
+    raise Unsupported('bool_to_real ' + str(e.decl()))
+
+
+def merged_term(rs):
+    """the value of calc as ONE term: an if-then-else over the path conditions when the code branches on x"""
+    oks = [r for r in rs if r.outcome == 'ok']
+    if not oks or len(oks) != len([r for r in rs if r.outcome != 'infeasible']): return None
+    t = oks[-1].value.t
+    for r in reversed(oks[:-1]):
+        t = z3.If(z3.And(r.pc) if r.pc else z3.BoolVal(True), r.value.t, t)
+    return t
 
 
 def main(tier):
@@ -47,17 +81,19 @@ def main(tier):
         def h(m, d=d):
             return m.call_fn(calc, [m.alloc(En('Easing', d, {d: []})), Sc('f32', x)])
         rs = m.explore(h)
-        if len(rs) != 1 or rs[0].outcome != 'ok':
+        t_ = merged_term(rs)
+        if t_ is None:
             check.inconclusive.append(f'calc({name}): {[(r.outcome, r.msg) for r in rs][:2]}'); continue
-        terms[name] = rs[0].value.t
+        terms[name] = t_
     # Custom(c).calc(x) is exactly c.calc(x)
     from structural import tag_easing, ov_easing_uf, E_UF
     m2 = Machine(prog, enums, overrides=[(re.compile(r'<dyn EasingFunction as EasingFunction>::calc$'), ov_easing_uf)], feas_mode='fp')
     def hc(m):
         return m.call_fn(calc, [m.alloc(tag_easing(7)), Sc('f32', x)])
     rs = m2.explore(hc)
-    if len(rs) == 1 and rs[0].outcome == 'ok':
-        check.add(Obligation('C13.custom-used-as-given', [z3.Not(rs[0].value.t == E_UF(z3.IntVal(7), x))], [x], words='Easing::Custom(c).calc(x) is exactly c.calc(x)', solvers=('z3',)))
+    tc = merged_term(rs)
+    if tc is not None:
+        check.add(Obligation('C13.custom-used-as-given', [z3.Not(z3.fpIsNaN(x)), z3.Not(tc == E_UF(z3.IntVal(7), x))], [x], words='Easing::Custom(c).calc(x) is exactly c.calc(x), for every x', solvers=('z3',)))
     else:
         check.inconclusive.append(f'calc(Custom): {[(r.outcome, r.msg) for r in rs][:2]}')
     check.note_machine(m); check.note_machine(m2)
@@ -68,13 +104,16 @@ def main(tier):
         # ---- bit-precise endpoint laws
         check.add(Obligation(f'C13.{name}.calc(0)==0', [x == ZERO, z3.Not(z3.fpEQ(t, ZERO))], [x], timeout=to, words=f'{name}: calc(0.0) == 0.0 exactly (f32)'))
         check.add(Obligation(f'C13.{name}.calc(1)==1', [x == ONE, z3.Not(t == ONE)], [x], timeout=to, words=f'{name}: calc(1.0) == 1.0 exactly (f32)'))
-        R[name] = fp_to_real(t, memo)
+        try:
+            R[name] = fp_to_real(t, memo)
+        except Unsupported as e:
+            check.inconclusive.append(f'calc({name}): {e}')
     if 'Linear' in terms:
         check.add(Obligation('C13.Linear.identity', [z3.Not(z3.Or(terms['Linear'] == x))], [x], timeout=to, words='Linear.calc(x) is x for every f32 x'))
     inx = [xr >= 0, xr <= 1]
     u = z3.Real('R_u')
     for name in terms:
-        if name == 'Linear': continue
+        if name == 'Linear' or name not in R: continue
         f = R[name]; fu = z3.substitute(f, (xr, u))
         if name not in BACK:
             check.add(Obligation(f'C13.{name}.range', inx + [z3.Or(f < 0, f > 1)], [xr], timeout=to, solvers=('z3',), words=f'{name}: 0 <= calc(x) <= 1 for all real x in [0,1] (exact arithmetic reading of the code\'s polynomial)'))
@@ -157,6 +196,16 @@ def confirm_definition(check, cases, table):
 
 def confirm_other(check, ob):
     nm = ob.name.split('.')
+    if ob.name == 'C13.custom-used-as-given':
+        xv = ob.result.model.get('x')
+        xs = [bits2f32(xv[1])] if isinstance(xv, tuple) else []
+        cs = [{'kind': 'ease_custom', 'x': '%08x' % f32bits(v)} for v in xs + [0.0, 1.0, -0.5, 1.5, 0.25]]
+        for c, n in zip(cs, run_replay(cs, 'dev')):
+            if n['via_easing'] != n['direct']:
+                check.report_violation(ob.name, None, f'Easing::Custom(c).calc({bits2f32(int(c["x"], 16))!r}) = {bits2f32(n["via_easing"])!r} but c.calc gives {bits2f32(n["direct"])!r} (c(x) = 0.25 + 0.5 x): a custom easing is not used as given', c)
+                return
+        check.inconclusive.append(f'{ob.name}: witness did not reproduce natively')
+        return
     easing = nm[1] if len(nm) > 2 else None
     mv = ob.result.model
     if easing and easing != 'mirror':
